@@ -28,6 +28,8 @@ func main() {
 		}
 	case "check":
 		os.Exit(checkCmd(os.Args[2:]))
+	case "replay":
+		os.Exit(replayCmd(os.Args[2:]))
 	default:
 		fmt.Println("unknown command")
 		os.Exit(2)
@@ -73,7 +75,7 @@ func printResult(res *engine.RunResult, verbose bool) {
 	}
 	seen := map[string]int{}
 	for _, v := range res.Violations {
-		k := v.Kind + "|" + v.Label + "|" + v.Msg + "|" + v.Site + fmt.Sprint(v.Sites)
+		k := v.Sig
 		seen[k]++
 		if seen[k] == 1 {
 			fmt.Printf("VIOL %s label=%s msg=%s site=%s sites=%v tags=%v inputs=%v\n", v.Kind, v.Label, v.Msg, v.Site, v.Sites, v.Tags, v.Inputs)
@@ -84,7 +86,7 @@ func printResult(res *engine.RunResult, verbose bool) {
 			}
 		}
 	}
-	for k, n := range seen {
+	for k, n := range res.ViolCount {
 		fmt.Printf("  x%d %s\n", n, k)
 	}
 	if verbose {
@@ -97,4 +99,3 @@ func printResult(res *engine.RunResult, verbose bool) {
 	}
 }
 
-func checkCmd(args []string) int { return 2 }
